@@ -12,6 +12,7 @@ pub fn all_sites() -> Vec<(&'static str, SiteFn)> {
         ("FieldGen", site_field as SiteFn),
         ("FuncGen", site_func as SiteFn),
         ("GlobGen", site_glob as SiteFn),
+        ("GatesGen", site_gates as SiteFn),
     ]
 }
 
@@ -457,5 +458,99 @@ fn site_glob(src: &Path) -> String {
     }
     if !body.contains("||") && chars.len() > 1 { panic!("is_glob: not a disjunction"); }
     writeln!(o, "Definition is_glob_chars : list N := [{}].", chars.join("; ")).unwrap();
+    o
+}
+
+// ---------------- E12: searcher.rs::visit_dir gates ----------------
+
+fn is_break_block(b: &Block) -> bool {
+    b.stmts.len() == 1 && matches!(&b.stmts[0], Stmt::Expr(Expr::Break(_), _))
+}
+
+struct LetCollector<'a> {
+    lets: Vec<(&'a Pat, &'a Expr)>,
+}
+impl<'a> syn::visit::Visit<'a> for LetCollector<'a> {
+    fn visit_local(&mut self, l: &'a Local) {
+        if let Some(init) = &l.init {
+            self.lets.push((&l.pat, &init.expr));
+        }
+        syn::visit::visit_local(self, l);
+    }
+}
+
+fn site_gates(src: &Path) -> String {
+    use syn::visit::Visit;
+    let file = read_file(src, "searcher.rs");
+    let f = find_impl_fn(&file.items, "Searcher", "visit_dir").expect("Searcher::visit_dir");
+    let mut o = String::from(HDR_N);
+    o.push_str("Open Scope N_scope.\n(* from src/searcher.rs, fn visit_dir *)\n");
+    let env = Env::new("N")
+        .with("self.is_buffered()", "is_buffered")
+        .with("self.query.limit", "limit")
+        .with("self.found", "found");
+    // the two depth bindings
+    let mut lc = LetCollector { lets: vec![] };
+    lc.visit_block(&f.block);
+    let mut base = None;
+    let mut depth = None;
+    for (p, e) in &lc.lets {
+        let name = pat_path_last(p).unwrap_or_default();
+        if name == "base_depth" {
+            // match root_depth { 0 => canonical_depth, _ => root_depth }
+            if let Expr::Match(m) = e {
+                let scr = ex(&m.expr, &env);
+                let mut zero = None;
+                let mut other = None;
+                for arm in &m.arms {
+                    match &arm.pat {
+                        Pat::Lit(ExprLit { lit: Lit::Int(i), .. }) if i.base10_parse::<u64>().unwrap() == 0 => zero = Some(ex(&arm.body, &env)),
+                        Pat::Wild(_) => other = Some(ex(&arm.body, &env)),
+                        p => panic!("base_depth: arm pattern {}", qs(p)),
+                    }
+                }
+                base = Some(format!("if N.eqb {} 0 then {} else {}", scr, zero.expect("base_depth: 0 arm"), other.expect("base_depth: _ arm")));
+            } else {
+                panic!("base_depth is not a match: {}", qs(*e));
+            }
+        }
+        if name == "depth" {
+            depth = Some(ex(e, &env));
+        }
+    }
+    writeln!(o, "Definition base_depth_of (root_depth canonical_depth : N) : N := {}.", base.expect("let base_depth")).unwrap();
+    writeln!(o, "Definition depth_of (canonical_depth base_depth : N) : N := {}.", depth.expect("let depth")).unwrap();
+    // does the u32 subtraction stay non-negative?  (recorded so that the model can flag underflow)
+    let mut ic = IfCollector { ifs: vec![] };
+    ic.visit_block(&f.block);
+    let mut breaks = vec![];
+    let mut report = None;
+    let mut descend = None;
+    for i in &ic.ifs {
+        let cond = qs(&i.cond).replace(' ', "");
+        if is_break_block(&i.then_branch) {
+            breaks.push(ex(&i.cond, &env));
+        } else if cond.contains("min_depth") {
+            if report.is_some() { panic!("two conditions mention min_depth"); }
+            if !contains_text(&i.then_branch, "check_file") { panic!("min_depth gate does not guard check_file"); }
+            report = Some(ex(&i.cond, &env));
+        } else if cond.contains("max_depth") {
+            if descend.is_some() { panic!("two conditions mention max_depth"); }
+            if !contains_text(&i.then_branch, "visit_dir") && !contains_text(&i.then_branch, "dir_queue") { panic!("max_depth gate does not guard the descent"); }
+            descend = Some(ex(&i.cond, &env));
+        }
+    }
+    if breaks.len() != 2 {
+        panic!("expected two `if .. {{ break }}` limit gates in visit_dir, found {}", breaks.len());
+    }
+    writeln!(o, "Definition gate_report (min_depth depth : N) : bool := {}.", report.expect("min_depth gate")).unwrap();
+    writeln!(o, "Definition gate_descend (max_depth depth : N) : bool := {}.", descend.expect("max_depth gate")).unwrap();
+    writeln!(o, "Definition gate_limit_dir (is_buffered : bool) (limit found : N) : bool := {}.", breaks[0]).unwrap();
+    writeln!(o, "Definition gate_limit_arc (is_buffered : bool) (limit found : N) : bool := {}.", breaks[1]).unwrap();
+    // queue discipline of the BFS drain loop
+    let body = qs(&f.block).replace(' ', "");
+    let pop = if body.contains("dir_queue.pop_front()") { "true" } else if body.contains("dir_queue.pop_back()") { "false" } else { panic!("queue pop not found") };
+    let push = if body.contains("dir_queue.push_back(") { "true" } else if body.contains("dir_queue.push_front(") { "false" } else { panic!("queue push not found") };
+    writeln!(o, "Definition queue_pop_front : bool := {}.\nDefinition queue_push_back : bool := {}.", pop, push).unwrap();
     o
 }
